@@ -111,7 +111,8 @@ func ParseTime(v string) (Time, error) {
 	if err != nil {
 		return Time{}, err
 	}
+	// normalise to UTC: the store keeps timestamps without time zone, an offset left in the text would be dropped there
 	return Time{
-		Time: t.Round(DatePrecision),
+		Time: t.UTC().Round(DatePrecision),
 	}, nil
 }
